@@ -12,12 +12,28 @@ package lexer
 //@   requires l != nil
 //@   ensures l.reader != nil
 //@   modifies *
+// Line accounting: gNL counts the line feeds delivered by the reader; the lexer's line counter advances by exactly
+// the line feeds it consumed - inside quoted strings (escaped or not), in comments and between tokens alike - so the
+// line recorded with a token plus the line breaks inside its text is the line the next token starts on (the token
+// dispenser decides "same line / next line" from exactly that sum).
+//@ ghost var gNL int
+//@ extern func (*bufio.Reader).ReadRune(b *bufio.Reader) (r rune, size int, err error)
+//@   modifies gNL
+//@   ensures gNL == old(gNL) + ((err == nil && r == 10) ? 1 : 0)
+//@   ensures gNL < 4611686018427387904
+//@ extern func unicode.IsSpace(r rune) bool
+//@   ensures r == 10 || r == 13 || r == 32 || r == 9 ==> result
 //@ func (*lexer).next
 //@   prop C20
 //@   nopanic
 //@   requires l != nil && l.reader != nil
+// (environment assumption, not an obligation for callers: fewer than 2^62 line feeds are ever read, and the counter
+// starts at or below the number read so far)
+//@   requires[ENV] 0 <= gNL && gNL < 4611686018427387904 && 0 <= l.line && l.line <= gNL
 //@   ensures l.reader != nil
+//@   ensures l.line - gNL == old(l.line - gNL)
 //@   modifies *
+//@   loop 0 invariant l.reader != nil && l.line - gNL == old(l.line - gNL) && gNL >= old(gNL) && gNL < 4611686018427387904
 //@ func (*lexer).next$1
 //@   prop C20
 //@   nopanic
